@@ -46,24 +46,32 @@ def production_sentences(dname):
         for me_, ctx_ in alt_tables:
             if p.name in ctx_ and all(s_ in me_ for s_ in p.prod):
                 pre, suf = ctx_[p.name]
-                yield pre + [t for s_ in p.prod for t in me_[s_]] + suf
+                yield pre + [t for s_ in p.prod for t in me_[s_]] + suf, (pre, suf, me_)
     for p in d.prods[1:]:
         kinds = d.sentence_for_production(p, ctx)
         if kinds is None or len(kinds) > 60:
             continue
         text = d.text_for(kinds)
+        frame = (ctx[p.name][0], ctx[p.name][1], d.min_expansions())
         if text is not None and not accepted(text):
-            for kinds2 in alternatives(p):
+            for kinds2, frame2 in alternatives(p):
                 t2 = d.text_for(kinds2) if len(kinds2) <= 60 else None
                 if t2 is not None and accepted(t2):
-                    text = t2
+                    text, frame = t2, frame2
                     break
+        _cache.setdefault(('prodframe', dname), {})[p.number] = frame
         if text is None or text in seen:
             continue
         seen.add(text)
         out.append((p.number, text))
     _cache[key] = out
     return out
+
+
+def production_frame(dname, num):
+    """(prefix kinds, suffix kinds, expansion table) the sentence of production `num` was built with"""
+    production_sentences(dname)
+    return _cache.get(('prodframe', dname), {}).get(num)
 
 
 def test_strings():
